@@ -158,7 +158,7 @@ func TestC01(t *testing.T) {
 
 	pf := fullProfile()
 	applyOpenFindingExclusions(&pf, rec)
-	rapidRun(t, env, "programs", env.Pick(320, 12000), func(rt *rapid.T) {
+	rapidRun(t, env, "programs", env.Pick(1600, 40000), func(rt *rapid.T) {
 		p := pg.GenProg(rt, pf)
 		files := p.Files()
 		w := pg.NewWorld(files, true)
